@@ -67,7 +67,7 @@ public:
 private:
     SharedMemory& shared_memory;
     MemoryInterfaceUnit& memory_interface_unit;
-    MMIORegion* mmio;
+    MMIORegion* mmio = nullptr;
 };
 
 } // namespace Teakra
